@@ -114,7 +114,6 @@ theorem stageNone_none (cfg : Http1.Cfg) (hl : 2 ≤ cfg.limit) (s : PState) (h 
         cases h
   · rename_i hs
     simp only [hs, if_false] at h
-    exact absurd h hs
 
 theorem stageFirst_stage (cfg : Http1.Cfg) (s : PState) :
     ((stageFirst cfg s).stage = .none → stageFirst cfg s = s) ∧
@@ -194,88 +193,103 @@ structure Inv (cfg : CCfg) (c : Conn) : Prop where
   halfDone : c.eofSeen = true → c.fate ≠ .reading
   notOk : ∀ s, c.fate = .replied s → s ≠ 200
 
-theorem inv_init (cfg : CCfg) (hl : 2 ≤ cfg.p.limit) : Inv cfg {} :=
-  ⟨by intro a h; cases h, by intro _; simp only [List.length_nil]; omega, by intro h; cases h, by intro s h; cases h⟩
+theorem inv_init (cfg : CCfg) (hl : 2 ≤ cfg.p.limit) : Inv cfg {} where
+  noAbort := by intro a h; cases h
+  below := by intro _; simp only [List.length_nil]; omega
+  halfDone := by intro h; cases h
+  notOk := by intro s h; cases h
 
-theorem parseOne_inv (cfg : CCfg) (hl : 2 ≤ cfg.p.limit) (c : Conn) (hf : c.fate = .reading) :
-    (∀ a, (parseOne cfg c).fate ≠ .aborted a) ∧
-    ((parseOne cfg c).fate = .reading → (parseOne cfg c).inBuf.length < cfg.p.limit) ∧
-    (∀ s, (parseOne cfg c).fate = .replied s → s ≠ 200) ∧
-    (parseOne cfg c).eofSeen = c.eofSeen := by
+theorem inv_closed (cfg : CCfg) (c : Conn) (h : c.fate = .closed) : Inv cfg c where
+  noAbort := by intro a h'; rw [h] at h'; cases h'
+  below := by intro h'; rw [h] at h'; cases h'
+  halfDone := by intro _ h'; rw [h] at h'; cases h'
+  notOk := by intro s h'; rw [h] at h'; cases h'
+
+theorem inv_of (cfg : CCfg) (c : Conn) (hne : c.fate ≠ .reading) (hna : ∀ a, c.fate ≠ .aborted a)
+    (hno : ∀ s, c.fate = .replied s → s ≠ 200) : Inv cfg c where
+  noAbort := hna
+  below := fun h => absurd h hne
+  halfDone := fun _ => hne
+  notOk := hno
+
+/-- the outcomes of `parseOne` on a reading connection -/
+theorem parseOne_cases (cfg : CCfg) (hl : 2 ≤ cfg.p.limit) (c : Conn) :
+    (parseOne cfg c).eofSeen = c.eofSeen ∧
+    (((parseOne cfg c).fate = c.fate ∧ (parseOne cfg c).inBuf.length < cfg.p.limit) ∨
+     (parseOne cfg c).fate = .handed ∨
+     (∃ s, (parseOne cfg c).fate = .replied s ∧ s ≠ 200)) := by
   unfold parseOne
   have hle := parse_buf_le cfg.p c.st c.inBuf
   have hnm := needMore_below_limit cfg.p hl c.st c.inBuf
   simp only
-  split
-  · omega
-  · split
-    · rename_i hst
-      have := hnm hst
-      simp only [this, if_true]
-      exact ⟨by intro a h; rw [hf] at h; cases h, fun _ => this, by intro s h; rw [hf] at h; cases h, rfl⟩
-    · split
-      · exact ⟨by intro a h; cases h, by intro h; cases h, by intro s h; cases h, rfl⟩
-      · rename_i hs
-        exact ⟨by intro a h; cases h, by intro h; cases h, by intro s h; cases h; exact hs, rfl⟩
+  have h1 : ¬ (Http1.parse cfg.p c.st c.inBuf).buf.length > c.inBuf.length := by omega
+  rw [if_neg h1]
+  by_cases hst : (Http1.parse cfg.p c.st c.inBuf).stage ≠ .done
+  · rw [if_pos hst, if_pos (hnm hst)]
+    exact ⟨rfl, Or.inl ⟨rfl, hnm hst⟩⟩
+  · rw [if_neg hst]
+    by_cases hs : (Http1.parse cfg.p c.st c.inBuf).status = 200
+    · rw [if_pos hs]; exact ⟨rfl, Or.inr (Or.inl rfl)⟩
+    · rw [if_neg hs]; exact ⟨rfl, Or.inr (Or.inr ⟨_, rfl, hs⟩)⟩
 
 theorem parseRequests_inv (cfg : CCfg) (hl : 2 ≤ cfg.p.limit) (c : Conn) (hf : c.fate = .reading)
     (hb : c.inBuf.isEmpty = true → c.inBuf.length < cfg.p.limit) : Inv cfg (parseRequests cfg c) := by
   unfold parseRequests
-  by_cases he : c.inBuf.isEmpty = true
-  · simp only [he, if_true]
-    split
-    · exact ⟨by intro a h; cases h, by intro h; cases h, by intro _ h; cases h, by intro s h; cases h⟩
-    · rename_i hn
-      refine ⟨by intro a h; rw [hf] at h; cases h, fun _ => hb he, ?_, by intro s h; rw [hf] at h; cases h⟩
-      intro h1 h2
-      exact hn ⟨h2, h1⟩
-  · simp only [he]
-    obtain ⟨p1, p2, p3, p4⟩ := parseOne_inv cfg hl c hf
-    split
-    · exact ⟨by intro a h; cases h, by intro h; cases h, by intro _ h; cases h, by intro s h; cases h⟩
-    · rename_i hn
-      refine ⟨p1, p2, ?_, p3⟩
-      intro h1 h2
-      exact hn ⟨h2, h1⟩
+  generalize hc1 : (if c.inBuf.isEmpty = true then c else parseOne cfg c) = c1
+  have key : c1.eofSeen = c.eofSeen ∧
+      ((c1.fate = .reading ∧ c1.inBuf.length < cfg.p.limit) ∨ c1.fate = .handed ∨ (∃ s, c1.fate = .replied s ∧ s ≠ 200)) := by
+    by_cases he : c.inBuf.isEmpty = true
+    · rw [if_pos he] at hc1; subst hc1
+      exact ⟨rfl, Or.inl ⟨hf, hb he⟩⟩
+    · rw [if_neg he] at hc1; subst hc1
+      obtain ⟨p1, p2⟩ := parseOne_cases cfg hl c
+      refine ⟨p1, ?_⟩
+      rcases p2 with ⟨q1, q2⟩ | q | q
+      · exact Or.inl ⟨q1.trans hf, q2⟩
+      · exact Or.inr (Or.inl q)
+      · exact Or.inr (Or.inr q)
+  simp only
+  by_cases hh : c1.fate = .reading ∧ c1.eofSeen = true
+  · rw [if_pos hh]; exact inv_closed cfg _ rfl
+  · rw [if_neg hh]
+    obtain ⟨_, k⟩ := key
+    rcases k with ⟨q1, q2⟩ | q | ⟨s, q, qs⟩
+    · exact ⟨(by intro a h; rw [q1] at h; cases h), fun _ => q2, fun h1 h2 => hh ⟨h2, h1⟩, (by intro s h; rw [q1] at h; cases h)⟩
+    · exact inv_of cfg c1 (by rw [q]; intro h; cases h) (by intro a h; rw [q] at h; cases h) (by intro s h; rw [q] at h; cases h)
+    · exact inv_of cfg c1 (by rw [q]; intro h; cases h) (by intro a h; rw [q] at h; cases h)
+        (by intro s' h; rw [q] at h; cases h; exact qs)
 
 theorem step_inv (cfg : CCfg) (hl : 2 ≤ cfg.p.limit) (c : Conn) (e : Ev) (h : Inv cfg c) : Inv cfg (step cfg c e) := by
-  cases e with
-  | data seg =>
-    simp only [step]
-    split
-    · exact h
-    · rename_i hf
-      have hf' : c.fate = .reading := by simpa using hf
-      split
-      · exact h
-      · split
-        · exact h
-        · rename_i hg
-          apply parseRequests_inv cfg hl _ hf'
+  by_cases hf : c.fate = .reading
+  · cases e with
+    | data seg =>
+      simp only [step, hf, ne_eq, not_true_eq_false, if_false]
+      by_cases h1 : c.inBuf.length ≥ cfg.bufMax
+      · rw [if_pos h1]; exact h
+      · rw [if_neg h1]
+        by_cases h2 : (seg.take (cfg.bufMax - c.inBuf.length)).isEmpty = true
+        · rw [if_pos h2]; exact h
+        · rw [if_neg h2]
+          refine parseRequests_inv cfg hl { st := c.st, inBuf := c.inBuf ++ seg.take (cfg.bufMax - c.inBuf.length), eofSeen := c.eofSeen } rfl ?_
           intro hem
           simp only [List.isEmpty_iff, List.append_eq_nil_iff] at hem
-          simp [hem.2] at hg
-  | eof =>
-    simp only [step]
-    split
-    · exact h
-    · rename_i hf
-      have hf' : c.fate = .reading := by simpa using hf
-      split
-      · exact ⟨by intro a h; cases h, by intro h; cases h, by intro _ h; cases h, by intro s h; cases h⟩
-      · apply parseRequests_inv cfg hl _ hf'
+          simp [hem.2] at h2
+    | eof =>
+      simp only [step, hf, ne_eq, not_true_eq_false, if_false]
+      by_cases h1 : c.inBuf.isEmpty = true ∨ (!cfg.halfClosed) = true
+      · rw [if_pos h1]; exact inv_closed cfg _ rfl
+      · rw [if_neg h1]
+        refine parseRequests_inv cfg hl { st := c.st, inBuf := c.inBuf, eofSeen := true } rfl ?_
         intro _
-        exact h.below hf'
-  | timeout =>
-    simp only [step]
-    split
-    · exact h
-    · exact ⟨by intro a h; cases h, by intro h; cases h, by intro _ h; cases h, by intro s h; cases h⟩
-  | ioError =>
-    simp only [step]
-    split
-    · exact h
-    · exact ⟨by intro a h; cases h, by intro h; cases h, by intro _ h; cases h, by intro s h; cases h⟩
+        exact h.below hf
+    | timeout =>
+      simp only [step, hf, ne_eq, not_true_eq_false, if_false]
+      exact inv_closed cfg _ rfl
+    | ioError =>
+      simp only [step, hf, ne_eq, not_true_eq_false, if_false]
+      exact inv_closed cfg _ rfl
+  · have : step cfg c e = c := by cases e <;> simp [step, hf]
+    rw [this]; exact h
 
 theorem run_inv (cfg : CCfg) (hl : 2 ≤ cfg.p.limit) (evs : List Ev) : Inv cfg (run cfg evs) := by
   unfold run
@@ -284,38 +298,45 @@ theorem run_inv (cfg : CCfg) (hl : 2 ≤ cfg.p.limit) (evs : List Ev) : Inv cfg 
   | nil => intro c h; exact h
   | cons e t ih => intro c h; exact ih _ (step_inv cfg hl c e h)
 
-/-- a final event (EOF, timeout, I/O error) never leaves the connection waiting -/
-theorem step_final_not_reading (cfg : CCfg) (c : Conn) (e : Ev) (he : e.final = true) : (step cfg c e).fate ≠ .reading := by
-  cases e with
-  | data seg => cases he
-  | eof =>
-    simp only [step]
-    split
-    · rename_i hf; simpa using hf
-    · split
-      · intro h; cases h
-      · unfold parseRequests
-        simp only
-        split
-        · intro h; cases h
-        · rename_i hn
-          intro h
-          apply hn
-          refine ⟨h, ?_⟩
-          split <;> simp [parseOne] <;> (repeat' split) <;> rfl
-  | timeout =>
-    simp only [step]
-    split
-    · rename_i hf; simpa using hf
-    · intro h; cases h
-  | ioError =>
-    simp only [step]
-    split
-    · rename_i hf; simpa using hf
-    · intro h; cases h
-
 /-- once the connection stopped reading, later events change nothing -/
 theorem step_settled (cfg : CCfg) (c : Conn) (e : Ev) (h : c.fate ≠ .reading) : step cfg c e = c := by
   cases e <;> simp [step, h]
+
+theorem parseRequests_eof_not_reading (cfg : CCfg) (c : Conn) (he : c.eofSeen = true)
+    (hp : (parseOne cfg c).eofSeen = c.eofSeen) : (parseRequests cfg c).fate ≠ .reading := by
+  unfold parseRequests
+  generalize hc1 : (if c.inBuf.isEmpty = true then c else parseOne cfg c) = c1
+  have : c1.eofSeen = true := by
+    by_cases h : c.inBuf.isEmpty = true
+    · rw [if_pos h] at hc1; subst hc1; exact he
+    · rw [if_neg h] at hc1; subst hc1; rw [hp]; exact he
+  simp only
+  by_cases hh : c1.fate = .reading ∧ c1.eofSeen = true
+  · rw [if_pos hh]; intro h; cases h
+  · rw [if_neg hh]; intro h; exact hh ⟨h, this⟩
+
+theorem parseOne_eofSeen (cfg : CCfg) (c : Conn) : (parseOne cfg c).eofSeen = c.eofSeen := by
+  unfold parseOne
+  simp only
+  split
+  · rfl
+  · split
+    · split <;> rfl
+    · split <;> rfl
+
+/-- a final event (EOF, timeout, I/O error) never leaves the connection waiting -/
+theorem step_final_not_reading (cfg : CCfg) (c : Conn) (e : Ev) (he : e.final = true) : (step cfg c e).fate ≠ .reading := by
+  by_cases hf : c.fate = .reading
+  · cases e with
+    | data seg => cases he
+    | eof =>
+      simp only [step, hf, ne_eq, not_true_eq_false, if_false]
+      by_cases h1 : c.inBuf.isEmpty = true ∨ (!cfg.halfClosed) = true
+      · rw [if_pos h1]; intro h; cases h
+      · rw [if_neg h1]
+        exact parseRequests_eof_not_reading cfg { st := c.st, inBuf := c.inBuf, eofSeen := true } rfl (parseOne_eofSeen cfg _)
+    | timeout => simp only [step, hf, ne_eq, not_true_eq_false, if_false]; intro h; cases h
+    | ioError => simp only [step, hf, ne_eq, not_true_eq_false, if_false]; intro h; cases h
+  · rw [step_settled cfg c e hf]; exact hf
 
 end SquidModel.Robust
